@@ -18,13 +18,14 @@ Definition qname := nat.
 Definition q_default : qname := 0.
 
 (* Which end of the deque `LimitedTaskQueue.release` puts the held tasks it
-   passed over back on.  The code that exists does
-       for itask in held: self.deque.appendleft(itask)
-   i.e. they re-enter at the NEWEST end (false).  The proposed fix
-   (proposed_fixes/C05-held-requeue.diff) puts them back at the oldest end in
-   their original order (true).  Theorems are proved for both values where they
-   hold for both. *)
-Definition held_requeue_front : bool := false.
+   passed over back on.  The code now (fix ffd4e73) does
+       for itask in reversed(held): self.deque.append(itask)
+   i.e. they go back to the OLDEST end in their original order (true).
+   Before that fix it did `for itask in held: self.deque.appendleft(itask)`:
+   they re-entered at the newest end (false).  Theorems are proved for both
+   values where they hold for both; the ones about `false` describe the pre-fix
+   code only. *)
+Definition held_requeue_front : bool := true.
 
 (* ------------------------------------------------------------------ *)
 (* configuration                                                       *)
